@@ -418,6 +418,27 @@ class KeyDerivation(VU):
                         lift_bool(zint(c.count) * L >= hi))
             return SBytes(rt.f_expand(rt.wire.z(c.base), z3.IntVal(hi)))
         rt.getslice_hooks["_Rep"] = rep_slice
+        # the other spelling of the same expansion: p * (n // len(p)) + p[:n % len(p)]
+        generic = rt.getslice_hooks.get("SBytes")
+
+        def prefix_slice(rt_, i, c, lo, hi, step):
+            if lo is None and step is None and isinstance(hi, SInt):
+                res = SBytes(rt.f_prefix(c.e, zint(hi)))
+                res.prefix_of = (c, hi)
+                return res
+            return generic(rt_, i, c, lo, hi, step)
+        rt.getslice_hooks["SBytes"] = prefix_slice
+
+        def rep_add(i, opn, a, b):
+            from pyvc import stdlib
+            pre = getattr(b, "prefix_of", None)
+            if opn != "Add" or pre is None or pre[0] is not a.base:
+                return NotImplemented
+            L, r, q = rt.f_blen(rt.wire.z(a.base)), zint(pre[1]), zint(a.count)
+            if not stdlib._prove(i, z3.And(r >= 0, r <= L, q >= 0)):
+                raise Undecided("p * q + p[:r] with r not known to lie in 0..len(p)")
+            return SBytes(rt.f_expand(rt.wire.z(a.base), q * L + r))
+        rt.hooks["binop:_Rep"] = rep_add
 
     def run(self, interp):
         ctx, rt = interp.ctx, self.rt
